@@ -155,7 +155,9 @@ def _alg(kind, head, tail_plain, tail_conn):
     op = "and" if kind == "and" else "or"
     oc = "cast(other, %s)._children" % cls
     if head == "self":      # Condition.__and__/__or__: the receiver is one child
-        lem = ["implies(isinstance(other, %s), len(result._children) == 1 + len(%s) and result._children[0] is self)" % (cls, oc),
+        lem = ["implies(not isinstance(other, %s), len(result._children) == 2 and result._children[0] is self "
+               "and result._children[1] is other)" % cls,
+               "implies(isinstance(other, %s), len(result._children) == 1 + len(%s) and result._children[0] is self)" % (cls, oc),
                "implies(isinstance(other, %s), forall(int, lambda j: implies(0 <= j and j < len(%s), result._children[j + 1] is %s[j])))" % (cls, oc, oc)]
     else:                   # All.__and__/Any.__or__: the receiver's children come first
         lem = ["len(result._children) >= len(self._children) and "
@@ -190,7 +192,10 @@ contract("usim._primitives.condition.Any.__or__",
 abstract_contract("Condition", "__invert__", [],
                   params={"self": REF("Condition")}, returns=REF("Condition"), inv_scope=NS,
                   raises={"NotImplementedError": dict(), "TypeError": dict()},
-                  ensures=["result is not None", "bool(result) == (not bool(self))"],
+                  ensures=["allocated(result) and is_a(result, Condition)", "bool(result) == (not bool(self))",
+                           # inversion builds new objects; the value of every existing condition stays what it was
+                           "forall(Condition, lambda c: implies(not fresh_obj(c), bool(c) == old(bool(c))))",
+                           'only_new_changed("Connective._children")', 'only_new_changed("Notification._waiting")'],
                   modifies=["Connective._children", "Notification._waiting"], check_frame=False)
 
 INV = dict(inv_scope=NS + ["Flag", "InverseFlag"], chain_ensures=True, check_frame=False, props=["C08"])
@@ -202,3 +207,27 @@ contract("usim._primitives.flag.InverseFlag.__invert__",
          ensures=["result is self._event", "bool(result) == (not bool(self))"], modifies=[], **INV)
 # De Morgan (All.__invert__ / Any.__invert__ map `~` over the children inside a generator expression): not under contract --
 # the engine has no summary for comprehensions whose element expression allocates; listed as a gap of C08.
+
+# De Morgan: ~(a & b & ...) is (~a | ~b | ...) and dually
+def _demorgan(src, dst):
+    return dict(
+        params={"self": REF(src)}, returns=REF(dst), inv_scope=NS,
+        # type invariant of the input: the children are existing condition objects
+        requires=["forall(self._children, lambda c: allocated(c) and is_a(c, Condition))"],
+        raises={"NotImplementedError": dict(), "TypeError": dict()},
+        ensures=["exact_class(result, %s)" % dst, "len(result._children) == len(self._children)",
+                 "forall(int, lambda i: implies(0 <= i and i < len(self._children), "
+                 "bool(result._children[i]) == (not bool(self._children[i]))))",
+                 "bool(result) == (not bool(self))"],
+        loop_invariants={"comp#1": [
+            "len(_res) == _i",
+            "forall(int, lambda j: implies(0 <= j and j < _i, allocated(_res[j]) and is_a(_res[j], Condition) and "
+            "bool(cast(_res[j], Condition)) == (not bool(_iter[j]))))",
+            "forall(int, lambda j: implies(0 <= j and j < len(_iter), allocated(_iter[j]) and is_a(_iter[j], Condition)))",
+            "len(self._children) == len(_iter)",
+            "forall(int, lambda j: implies(0 <= j and j < len(_iter), self._children[j] is _iter[j]))"]},
+        loop_consistent=["comp#1"],
+        modifies=["Connective._children", "Notification._waiting"], chain_ensures=True, check_frame=False, props=["C08"])
+
+contract("usim._primitives.condition.All.__invert__", **_demorgan("All", "Any"))
+contract("usim._primitives.condition.Any.__invert__", **_demorgan("Any", "All"))
